@@ -401,7 +401,8 @@ func checkC13(r *Result) []Violation {
 				if c2 == c || op2.Pkt == nil || op2.Pkt.Type != refcodec.CONNECT || op2.Pkt.ClientID != cp.ClientID || c2.openSeq > pr.Seq {
 					continue
 				}
-				if admittedConn(c2) {
+				if admittedConn(c2) || (validConnect(op2.Pkt) && op2.Note != "invalid" && authAllows(r, op2.Pkt)) {
+					// admitted, or valid and merely overtaken before its CONNACK was written (a C13/C14 takeover finding)
 					explained = true
 				} else {
 					refusedBefore = true
